@@ -562,3 +562,86 @@ def remapEntriesPinned (arg : Mapping) (mode : Option Str) (files : List (List S
   (readRemapFilesPinned mode files).map fun ff => remapDeps (arg.merge ff false) flavor deps
 
 end EupsModel.Manifest
+
+namespace EupsModel.Manifest
+
+/-! ## DistribServer: tagged-release lists served from `<base>/<tag>.list`, parsed lists cached per (tag, flavor) -/
+
+/-- `DistribServer.tagged` -/
+abbrev TagCache := List ((Str × Option Str) × TagList)
+
+def cacheGet (c : TagCache) (k : Str × Option Str) : Option TagList :=
+  match c with
+  | [] => none
+  | (k', t) :: r => if k' = k then some t else cacheGet r k
+
+inductive ServeErr
+  | notFound            -- RemoteFileNotFound: no `<tag>.list` on the server
+  | read (e : ReadErr)  -- the file does not parse
+  deriving DecidableEq, Repr
+
+/-- `TaggedProductList.fromFile(<base>/<tag>.list, tag, flavor=flavor)`; `files`: tag ↦ text of the file -/
+def parseList (files : List (Str × Str)) (tag : Str) (flavor : Option Str) : Except ServeErr TagList :=
+  match assocGet files tag with
+  | none => .error .notFound
+  | some text =>
+    match (TagList.empty tag flavor).read text with
+    | .error e => .error (.read e)
+    | .ok t => .ok t
+
+/-- the key under which a parsed list is cached: `(tag, flavor)`; `byTagOnly` is the variant that forgets the flavor
+(kept to show that the flavor in the key is necessary) -/
+def cacheKey (byTagOnly : Bool) (tag : Str) (flavor : Option Str) : Str × Option Str :=
+  if byTagOnly then (tag, none) else (tag, flavor)
+
+/-- `DistribServer.getTaggedProductList(tag, flavor)` -/
+def getTaggedProductList (byTagOnly : Bool) (files : List (Str × Str)) (c : TagCache) (tag : Str) (flavor : Option Str) :
+    Except ServeErr TagList × TagCache :=
+  match cacheGet c (cacheKey byTagOnly tag flavor) with
+  | some t => (.ok t, c)
+  | none =>
+    match parseList files tag flavor with
+    | .error e => (.error e, c)
+    | .ok t => (.ok t, (cacheKey byTagOnly tag flavor, t) :: c)
+
+inductive Req
+  | list (tag : Str) (flavor : Option Str)                    -- getTaggedProductList(tag, flavor).getProducts()
+  | info (tag : Str) (flavor : Option Str) (product : Str)    -- getTaggedProductInfo(product, flavor, tag)
+  deriving DecidableEq, Repr
+
+inductive Ans
+  | products (l : List (List Str))
+  /-- `[product] + getProductInfo(product)`; `none` = `[product, None, None]` -/
+  | info (i : Option (List Str))
+  | err (e : ServeErr)
+  deriving DecidableEq, Repr
+
+def Req.tag : Req → Str
+  | .list t _ => t
+  | .info t _ _ => t
+def Req.flavor : Req → Option Str
+  | .list _ f => f
+  | .info _ f _ => f
+
+def answerFrom (r : Req) (t : TagList) : Ans :=
+  match r with
+  | .list _ _ => .products t.getProducts
+  | .info _ _ p => .info ((assocGet t.info p).map fun i => p :: i)
+
+/-- one request to a server object -/
+def serve1 (byTagOnly : Bool) (files : List (Str × Str)) (c : TagCache) (r : Req) : Ans × TagCache :=
+  match getTaggedProductList byTagOnly files c r.tag r.flavor with
+  | (.error e, c') => (.err e, c')
+  | (.ok t, c') => (answerFrom r t, c')
+
+/-- a history of requests to one server object: the answers, in order -/
+def serve (byTagOnly : Bool) (files : List (Str × Str)) : TagCache → List Req → List Ans
+  | _, [] => []
+  | c, r :: rs => let p := serve1 byTagOnly files c r; p.1 :: serve byTagOnly files p.2 rs
+
+/-- the cache after a history -/
+def cacheAfter (byTagOnly : Bool) (files : List (Str × Str)) : TagCache → List Req → TagCache
+  | c, [] => c
+  | c, r :: rs => cacheAfter byTagOnly files (serve1 byTagOnly files c r).2 rs
+
+end EupsModel.Manifest
